@@ -66,8 +66,54 @@ def add_fact(self, st: State, cond: Term, pol: bool):
         st.facts = st.facts + ((cond, pol),)
 
 
+def _desugar_list_of_generator(self, s: ast.stmt, st: State):
+    """x = list(G(...)) / return list(G(...)) with G a generator function or method that did not exist on the pinned tree:
+    tmp = []; for item in G(...): tmp.append(item); x = tmp   (the loop is then fused with G like any other consumer)"""
+    v = getattr(s, "value", None)
+    if not (isinstance(v, ast.Call) and isinstance(v.func, ast.Name) and v.func.id in ("list",) and len(v.args) == 1 and not v.keywords and isinstance(v.args[0], ast.Call)):
+        return None
+    if not isinstance(s, (ast.Assign, ast.Return, ast.AnnAssign)):
+        return None
+    inner = v.args[0]
+    if not isinstance(inner.func, (ast.Name, ast.Attribute)):
+        return None
+    try:
+        f = self.ev(inner.func, st)
+    except Unsupported:
+        return None
+    if f.op not in ("func", "bound"):
+        return None
+    from .symexec import _is_new_function
+
+    fi = self.fis.get(f.args[1])
+    if fi is None or not fi.is_generator or not _is_new_function(fi) or fi in [fr.fi for fr in self.frames]:
+        return None
+    n = fresh_uid()
+    tmp, item = "__lst%d" % n, "__item%d" % n
+    init = ast.Assign(targets=[ast.Name(id=tmp, ctx=ast.Store())], value=ast.List(elts=[], ctx=ast.Load()))
+    app = ast.Expr(value=ast.Call(func=ast.Attribute(value=ast.Name(id=tmp, ctx=ast.Load()), attr="append", ctx=ast.Load()), args=[ast.Name(id=item, ctx=ast.Load())], keywords=[]))
+    loop = ast.For(target=ast.Name(id=item, ctx=ast.Store()), iter=inner, body=[app], orelse=[])
+    if _fuse_new_generator(self, loop, st) is None:
+        return None
+    import copy as _copy
+
+    last = _copy.copy(s)
+    last.value = ast.Name(id=tmp, ctx=ast.Load())
+    out = [init, loop, last]
+    for x in out:
+        for m_ in ast.walk(x):
+            if getattr(m_, "lineno", None) is None:
+                ast.copy_location(m_, s)
+        ast.fix_missing_locations(x)
+    return out
+
+
 def stmt(self, s: ast.stmt, st: State) -> Optional[State]:
     t = type(s)
+    if t in (ast.Assign, ast.Return, ast.AnnAssign):
+        dl = _desugar_list_of_generator(self, s, st)
+        if dl is not None:
+            return self.block(dl, st)
     if t is ast.Expr:
         if isinstance(s.value, ast.Constant):
             return st
@@ -1025,15 +1071,30 @@ def _fuse_new_generator(self, s: ast.For, st: State):
         f = self.ev(it.func, st)
     except Unsupported:
         return None
-    if f.op != "func":
+    if f.op not in ("func", "bound"):
         return None
     from .fuse import fuse_for
     from .symexec import _is_new_function
 
     fi = self.fi_of(f)
-    if fi is None or not fi.is_generator or fi.cls is not None or fi.parent is not None or not _is_new_function(fi) or fi.module is not self.frame.fi.module or fi in [fr.fi for fr in self.frames]:
+    if fi is None or not fi.is_generator or fi.parent is not None or not _is_new_function(fi) or fi.module is not self.frame.fi.module or fi in [fr.fi for fr in self.frames]:
         return None
-    return fuse_for(s, fi.node)
+    receiver = None
+    if fi.cls is not None:
+        # a generator method of a class of the module: static methods bind nothing; class / instance methods bind their first parameter to the
+        # receiver expression, which must be a plain name (cls, self, the class) so that it can be evaluated again
+        if fi.kind == "staticmethod":
+            receiver = None
+        elif isinstance(it.func, ast.Attribute) and isinstance(it.func.value, ast.Name):
+            rv = self.ev(it.func.value, st)
+            if fi.kind == "classmethod" and rv.op != "class":
+                return None
+            if fi.kind != "classmethod" and rv.op == "class":
+                return None
+            receiver = it.func.value
+        else:
+            return None
+    return fuse_for(s, fi.node, receiver)
 
 
 def st_for(self, s: ast.For, st: State) -> Optional[State]:
